@@ -7,7 +7,7 @@
  * by a schedule (explicit choices, then a tail policy).  Every run happens in a forked child, so each starts from process start
  * (FFT_LEN == -1, tables NULL) unless the run asks for a completed initialisation first (warm=1).
  *
- * filter.c is #included so that the real shared variables (fft_len, fft_len_f, the two ccrw2_t, the two bit-reversal tables) can
+ * filter.c is #included so that the real shared variables (fft_len, fft_len_f, the two bit-reversal tables; the two ccrw2_t are found by a probe, not by name) can
  * be sampled after every event: they are printed with the event and compared with the Lean model's variables by soxr_conc.
  *
  * Per run the parent prints
@@ -19,7 +19,7 @@
  *   RESULT <id> status=<ok|deadlock|timeout|crash:N|overflow> events=<n> ndec=<n> decisions=<digits> wrong=<list> jobs=<n>
  *
  * usage: sched batch <file>      one run per line:  <id> key=value ...
- *        keys: jobs=<t0job+t0job/t1job...> sched=<[0-9cnm]*|-> tail=<c|r|x> seed=<n> p=<0..255> warm=<0|1> relswitch=<0|1>
+ *        keys: jobs=<t0job+t0job/t1job...> sched=<[0-9cnm]*|-> tail=<c|r|x> seed=<n> p=<0..255> warm=<0|1|2|3> relswitch=<0|1>
  *              simd32=<0|1> simd64=<0|1>
  *        job:  Q:<recipe>:<phase>:<irate>:<orate>:<nsamples>   constant-rate one-shot, mono float32
  *              V:<ratio*1000>:<nsamples>                        variable-rate engine
@@ -152,15 +152,28 @@ static void viol(char const *kind, char const *fmt, long a, long b, long c)
   if (sh->nviol < MAXVIOL) { viol_t *v = &sh->viol[sh->nviol++]; v->ev = sh->nev; snprintf(v->kind, sizeof v->kind, "%s", kind); snprintf(v->detail, sizeof v->detail, fmt, a, b, c); }
 }
 
-static ccrw2_t *ccrw_of(int c) { return c ? &fft_cache_ccrw_f : &fft_cache_ccrw; }
+/* Which ccrw2_t guards which cache is LEARNED, not named: before the first run a probe child calls each cache's initialiser once
+ * (lsx_init_fft_cache for the double tables = cache 0, lsx_init_fft_cache_f for the float tables = cache 1) and the lock shim
+ * records the five lock words each of them initialises (the field is the text after the last '.' of the shim's name argument).
+ * The model describes each cache with lock words of its own: that the two sets are disjoint is checked, not assumed. */
+typedef struct { soxr_verif_lock_t *lk[2][5]; int nfound[2]; int shared; } probe_t;
+static probe_t *probe; static int probing = -1;
+static ccrw2_t no_ccrw;
+static int field_of(char const *n)
+{
+  char const *d = strrchr(n, '.'); d = d ? d + 1 : n;
+  return !strcmp(d, "mutex_1") ? N_M1 : !strcmp(d, "mutex_2") ? N_M2 : !strcmp(d, "mutex_3") ? N_M3 : !strcmp(d, "w") ? N_W : !strcmp(d, "r") ? N_R : N_OTHER;
+}
+static ccrw2_t *ccrw_of(int c)
+{ return probe->lk[c][N_M1] ? (ccrw2_t *)(void *)((char *)probe->lk[c][N_M1] - offsetof(ccrw2_t, mutex_1)) : &no_ccrw; }
+static int held_of(int c, int f) { return probe->lk[c][f] ? probe->lk[c][f]->held : 0; }
 static long flen_of(int c) { return c ? fft_len_f : fft_len; }
 static long tab_of(int c) { int *br = c ? lsx_fft_br_f : lsx_fft_br; return br ? 4L * br[0] : 0; }
 
 static int lock_id(soxr_verif_lock_t *l, int *cache)
 {
-  int c; for (c = 0; c < 2; ++c) { ccrw2_t *p = ccrw_of(c); *cache = c;
-    if (l == &p->mutex_1) return N_M1; if (l == &p->mutex_2) return N_M2; if (l == &p->mutex_3) return N_M3; if (l == &p->w) return N_W; if (l == &p->r) return N_R; }
-  *cache = 0; return N_OTHER;
+  int c, f; for (c = 0; c < 2; ++c) for (f = 0; f < 5; ++f) if (l == probe->lk[c][f]) { *cache = c; return f; }
+  *cache = 0; return N_OTHER;       /* (a lock word that belongs to both caches is attributed to cache 0) */
 }
 
 /* record one event of the running thread (mu held) and evaluate the real-code monitors */
@@ -174,8 +187,7 @@ static void emit(int cache, int kind, int name, long arg)
   { int c; for (c = 0; c < 2; ++c) if (cache == c || cache < 0) {
     ccrw2_t *p = ccrw_of(c); event_t *o = (cache < 0 && c == 1) ? &alt_obs[me] : e;
     o->flen = flen_of(c); o->rc = p->readcount; o->wc = p->writecount; o->tab = tab_of(c);
-    o->h[0] = (unsigned char)p->mutex_1.held; o->h[1] = (unsigned char)p->mutex_2.held; o->h[2] = (unsigned char)p->mutex_3.held;
-    o->h[3] = (unsigned char)p->w.held; o->h[4] = (unsigned char)p->r.held; } }
+    { int f; for (f = 0; f < 5; ++f) o->h[f] = (unsigned char)held_of(c, f); } } }
   /* back-patches: the cache of an `init:check-passed` yield and the len of a `cache:rebuild-begin` yield are only known at
    * the thread's next event */
   if (cache >= 0 && patch_cache_ev[me] >= 0) { event_t *q = &sh->ev[patch_cache_ev[me]], *o = &alt_obs[me];
@@ -308,7 +320,6 @@ static void vr_event(int name)
 
 void soxr_verif_init_lock(soxr_verif_lock_t *l, char const *n)
 {
-  (void)n;
   if (managed && me >= 0) {
     int cache, name, was_inited, was_held;
     HIDE_BEGIN();
@@ -321,7 +332,10 @@ void soxr_verif_init_lock(soxr_verif_lock_t *l, char const *n)
     emit(cache, K_INIT, name, 0);
     pthread_mutex_unlock(&mu);
     HIDE_END();
-  } else { l->held = 0; l->inited = 1; }
+  } else {
+    if (probing >= 0) { int f = field_of(n); if (f < 5) { probe->lk[probing][f] = l; probe->nfound[probing]++; } }
+    l->held = 0; l->inited = 1;
+  }
 }
 
 void soxr_verif_destroy_lock(soxr_verif_lock_t *l, char const *n) { (void)n; l->inited = 0; }
@@ -453,8 +467,14 @@ static void do_line(char const *line)
     setenv("SOXR_USE_SIMD32", r.simd32 ? "1" : "0", 1); setenv("SOXR_USE_SIMD64", r.simd64 ? "1" : "0", 1);
     explicit_sched = strcmp(r.sched, "-") ? r.sched : ""; explicit_pos = 0;
     opt_tail = r.tail; opt_p = r.p; opt_relswitch = r.relswitch; rng_s = r.seed * 0x9E3779B97F4A7C15ull + 0x1234567ull; if (!rng_s) rng_s = 1;
-    if (r.warm) { lsx_init_fft_cache(); lsx_init_fft_cache_f(); }
-    for (t = 0; t < 2; ++t) { last_flen[t] = flen_of(t); last_tab[t] = tab_of(t); init_entries[t] = r.warm ? 1 : 0; }
+    if (r.warm == 1 || r.warm == 2) lsx_init_fft_cache();       /* warm: 1 both caches, 2 only the double one, 3 only the float one */
+    if (r.warm == 1 || r.warm == 3) lsx_init_fft_cache_f();
+    for (t = 0; t < 2; ++t) { last_flen[t] = flen_of(t); last_tab[t] = tab_of(t); init_entries[t] = flen_of(t) >= 0; }
+    /* the structural fact the model takes for granted: every cache has five lock words of its own */
+    if (probe->nfound[0] != 5 || probe->nfound[1] != 5)
+      viol("LOCK-PROBE", "the initialisers of the two caches initialise %ld and %ld lock words (5 each expected)%.0ld", probe->nfound[0], probe->nfound[1], 0);
+    { int f, g, n = 0, f0 = -1, g0 = -1; for (f = 0; f < 5; ++f) for (g = 0; g < 5; ++g) if (probe->lk[0][f] && probe->lk[0][f] == probe->lk[1][g]) { if (!n++) f0 = f, g0 = g; }
+      if (n) viol("LOCK-SHARED-BETWEEN-CACHES", "%ld lock word(s) belong to both caches (e.g. lock %ld of cache 0 is lock %ld of cache 1): each cache's first-use initialiser re-creates them, whatever the other cache's threads hold", n, f0, g0); }
     for (t = 0; t < MAXT; ++t) patch_cache_ev[t] = patch_len_ev[t] = -1;
     alarm(30);
     managed = 1;
@@ -464,7 +484,7 @@ static void do_line(char const *line)
     managed = 0; sh->status = 1; _exit(0);
   }
   waitpid(pid, &st, 0);
-  printf("RUN %s threads=%d warm0=%d warm1=%d\n", r.id, nthreads, r.warm, r.warm);
+  printf("RUN %s threads=%d warm0=%d warm1=%d\n", r.id, nthreads, r.warm == 1 || r.warm == 2, r.warm == 1 || r.warm == 3);
   for (i = 0; i < sh->nev; ++i) { event_t *e = &sh->ev[i];
     /* a run that died right after this yield never told us the thread's `len` (it is back-patched at the thread's next event):
      * the event is that thread's last one and says nothing the model could check */
@@ -492,7 +512,11 @@ int main(int argc, char **argv)
   char *line = 0; size_t cap = 0; FILE *f;
   sh = mmap(0, sizeof *sh, PROT_READ | PROT_WRITE, MAP_SHARED | MAP_ANONYMOUS, -1, 0);
   refs = mmap(0, sizeof(ref_t) * MAXREF, PROT_READ | PROT_WRITE, MAP_SHARED | MAP_ANONYMOUS, -1, 0);
-  if (sh == MAP_FAILED || refs == MAP_FAILED) { perror("mmap"); return 2; }
+  probe = mmap(0, sizeof *probe, PROT_READ | PROT_WRITE, MAP_SHARED | MAP_ANONYMOUS, -1, 0);
+  if (sh == MAP_FAILED || refs == MAP_FAILED || probe == MAP_FAILED) { perror("mmap"); return 2; }
+  { pid_t pid = fork(); int st;       /* probe child: learn the two caches' lock words (same addresses in every later child) */
+    if (!pid) { probing = 0; lsx_init_fft_cache(); probing = 1; lsx_init_fft_cache_f(); probing = -1; _exit(0); }
+    waitpid(pid, &st, 0); }
   if (argc >= 3 && !strcmp(argv[1], "batch")) {
     f = strcmp(argv[2], "-") ? fopen(argv[2], "r") : stdin; if (!f) { perror(argv[2]); return 2; }
     while (getline(&line, &cap, f) > 0) do_line(line);
